@@ -1151,6 +1151,9 @@ pub fn gen(cfg: &Cfg) -> Vec<String> {
             }
         }
         "C13" => {
+            // pipelined replies, the first one larger than twice the receive buffer, with a backlog of the
+            // second in the read that completes the first (positional pairing across two lists)
+            big_pair_ops(&mut ops, cfg.seed);
             // list replies received with interruptions: the receive future is dropped at every
             // chunk boundary (flavour c), in particular exactly after each `list_OK`
             let n = cfg.n.unwrap_or(if cfg.thorough { 4000 } else { 400 });
